@@ -1,5 +1,6 @@
 (** C08 - proofs about model/Locks.v. *)
 From IndModel Require Import Base Locks.
+From IndGen Require Import LockFootprints.
 From Coq Require Import Arith Lia ZifyBool ZifyNat.
 Local Open Scope nat_scope.
 
@@ -875,4 +876,89 @@ Proof.
     simpl in Hq. apply andb_prop in Hq. destruct Hq as [Hq1 Hq2].
     destruct (parked_step l s s1 E Hq1 Hf Hw) as (Hf1 & Hw1).
     eapply IH; eassumption.
+Qed.
+
+(* ------------------------------------------------------------ the generated table *)
+Lemma pool_okb_WF : forall ths, pool_okb ths = true -> WF ths.
+Proof.
+  intros ths H. unfold pool_okb in H. apply andb_prop in H. destruct H as [H1 H2].
+  rewrite forallb_forall in H1, H2. split; apply Forall_forall; intros t Hin.
+  - specialize (H1 t Hin). apply andb_prop in H1. destruct H1 as [Hh Ho]. split.
+    + destruct (held t); [reflexivity|discriminate].
+    + exists [code t]. split; [simpl; rewrite app_nil_r; reflexivity|].
+      apply Forall_cons; [exact Ho|apply Forall_nil].
+  - specialize (H2 t Hin). intros sl u HinS. unfold spawns_okb in H2.
+    rewrite forallb_forall in H2. specialize (H2 _ HinS). simpl in H2.
+    destruct (nth_error ths u) as [tu|]; [|discriminate]. exists tu. split; [reflexivity|exact H2].
+Qed.
+
+Lemma table_ordered : forall tbl,
+  forallb (fun x : String.string * list caction => cordered (snd x)) tbl = true ->
+  forall name p, In (name, p) tbl ->
+  forall b m k q, Thin (map (inst b m k) p) q -> Ordered q.
+Proof.
+  intros tbl H name p Hin b m k q HT. rewrite forallb_forall in H.
+  specialize (H _ Hin). simpl in H. eapply Ordered_thin; [exact HT|]. apply cordered_inst. exact H.
+Qed.
+
+Lemma generated_table_cordered :
+  forallb (fun x : String.string * list caction => cordered (snd x)) all_footprints = true.
+Proof. vm_compute. reflexivity. Qed.
+
+Lemma generated_ticker_body_ok : cordered ticker_body = true /\ cworker_ok ticker_body = true.
+Proof. split; vm_compute; reflexivity. Qed.
+
+Theorem footprints_ordered :
+  (forall name p, In (name, p) all_footprints ->
+     forall b m k q, Thin (map (inst b m k) p) q -> Ordered q) /\
+  (forall b m k n, Ordered (repeat_list n (map (inst b m k) ticker_body)) /\
+                   worker_ok (repeat_list n (map (inst b m k) ticker_body)) = true).
+Proof.
+  split.
+  - apply table_ordered. exact generated_table_cordered.
+  - intros b m k n. destruct generated_ticker_body_ok as [Ho Hw].
+    induction n as [|n [IH1 IH2]]; simpl.
+    + split; reflexivity.
+    + split.
+      * apply Ordered_app; [apply cordered_inst; exact Ho|exact IH1].
+      * unfold worker_ok in *. rewrite forallb_app. rewrite IH2.
+        pose proof (cworker_inst _ Hw b m k) as Hw'. unfold worker_ok in Hw'. rewrite Hw'. reflexivity.
+Qed.
+
+(** the nesting found in the generated footprints: exactly Bar -> Multi and Slot -> Stop
+    (plus, through the join under Slot, Slot -> everything the ticker body takes) *)
+Definition cpair_eqb (x y : cres * cres) : bool := cres_eqb (fst x) (fst y) && cres_eqb (snd x) (snd y).
+Fixpoint cdedup (l : list (cres * cres)) : list (cres * cres) :=
+  match l with
+  | [] => []
+  | x :: r => if existsb (cpair_eqb x) r then cdedup r else x :: cdedup r
+  end.
+Lemma generated_nesting :
+  cdedup (concat (map (fun x : String.string * list caction => cnest_from [] (snd x)) all_footprints))
+  = [(CBar, CMulti); (CSlot, CStop)].
+Proof. vm_compute. reflexivity. Qed.
+
+Lemma old_update_rejected :
+  cordered old_update_fp = false /\
+  cnest_from [] old_update_fp = [(CBar, CSlot); (CSlot, CMulti); (CBar, CMulti)].
+Proof. split; vm_compute; reflexivity. Qed.
+
+Lemma join_enabled_when_done : forall s sl u tu,
+  lookup sl (jslot s) = Some u -> nth_error (threads s) u = Some tu -> done tu = true ->
+  enabled s (Join sl) = true.
+Proof. intros s sl u tu Hl Hn Hd. simpl. rewrite Hl, Hn. exact Hd. Qed.
+
+Lemma manual_ticks_noop : forall n tk, Nat.iter n (tick_inner false) tk = tk.
+Proof. induction n as [|n IH]; intro tk; simpl; [reflexivity|rewrite IH; reflexivity]. Qed.
+
+(** a reachable, settled state: the ticker parked in its first wait, then Ticker::stop *)
+Definition ex_trace : list label :=
+  [LT false; LT false; LT false; LT false; LT false; LT false; LT false; LT false;
+   LLockStop; LSetStop; LUnlockStop; LNotify].
+Lemma ex_settled : exists s, lrun ex_trace (tinit false 1 false) = Some s /\
+  treach s /\ flag s = true /\ owed s = false /\ barl s <> ByEnv /\ stopl s <> ByEnv /\ pc s = TRelock.
+Proof.
+  eexists. split; [vm_compute; reflexivity|]. split.
+  - exists false, 1, false, ex_trace. vm_compute. reflexivity.
+  - simpl. repeat split; discriminate.
 Qed.
